@@ -1852,7 +1852,7 @@ done:
 int
 evbuffer_prepend(struct evbuffer *buf, const void *data, size_t datlen)
 {
-	struct evbuffer_chain *chain, *tmp;
+	struct evbuffer_chain *chain, *tmp = NULL;
 	int result = -1;
 
 	EVBUFFER_LOCK(buf);
@@ -1897,6 +1897,12 @@ evbuffer_prepend(struct evbuffer *buf, const void *data, size_t datlen)
 			buf->n_add_for_cb += datlen;
 			goto out;
 		} else if (chain->misalign) {
+			/* allocate the chain for the rest first, so that a
+			 * failure leaves the buffer untouched */
+			tmp = evbuffer_chain_new_membuf(
+			    datlen - (size_t)chain->misalign);
+			if (tmp == NULL)
+				goto done;
 			/* we can only fit some of the data. */
 			memcpy(chain->buffer,
 			    (char*)data + datlen - chain->misalign,
@@ -1910,7 +1916,7 @@ evbuffer_prepend(struct evbuffer *buf, const void *data, size_t datlen)
 	}
 
 	/* we need to add another chain */
-	if ((tmp = evbuffer_chain_new_membuf(datlen)) == NULL)
+	if (tmp == NULL && (tmp = evbuffer_chain_new_membuf(datlen)) == NULL)
 		goto done;
 	buf->first = tmp;
 	if (buf->last_with_datap == &buf->first && chain->off)
